@@ -147,3 +147,15 @@ Definition size_ok_keys (ks : list key) : Prop := NODE_MAX * (1 + key_bytes ks) 
 Definition size_ok (kvs : kmap) : Prop := size_ok_keys (keys_of kvs).
 Definition size_ok_ops (ops : list op) : Prop := size_ok_keys (map op_key ops).
 Definition calls_ok (ops : list op) : Prop := Forall (fun r => r = Ok tt) (spec_calls None ops).
+
+(* sets: keys may repeat; the content is the de-duplicated key list with value 0 *)
+Fixpoint sorted_weak (l : list key) : bool :=
+  match l with
+  | [] => true
+  | a :: r => match r with [] => true | b :: _ => key_leb a b && sorted_weak r end
+  end.
+Fixpoint dedup (l : list key) : list key :=
+  match l with
+  | [] => []
+  | a :: r => match r with [] => [a] | b :: _ => if key_eqb a b then dedup r else a :: dedup r end
+  end.
